@@ -142,8 +142,9 @@ theorem available_true_justified (cfg : Cfg) (rm : Remotes) (s : Sys) (mem : OSe
     (hnd : hasDuplicates mem.phases = false)
     (co : List CRef) (failing : Option String) (w : World)
     (hph : reconcilePhases cfg mem.owner (lookupPrev s mem) (rm.recon mem) mem.phases s.w [] = (w, .ok (co, failing))) :
-    let final := finishMem { w with remoteRefs := [] }
-      (deriveStatus { mem with remotePhases := w.remoteRefs.foldl addRemote mem.remotePhases } co failing)
+    let w' := afterPhases rm mem (.ok (co, failing)) w
+    let final := finishMem { w' with remoteRefs := [] }
+      (deriveStatus { mem with remotePhases := w'.remoteRefs.foldl addRemote mem.remotePhases } co failing)
     (condTrue final.conds "Available" = true →
       failing = none ∧
       (Pko.Props.C03.visitsPh cfg mem.owner (lookupPrev s mem) (rm.recon mem) mem.phases s.w).map (·.1) = mem.phases ∧
@@ -152,7 +153,7 @@ theorem available_true_justified (cfg : Cfg) (rm : Remotes) (s : Sys) (mem : OSe
     final.controllerOf = co ∧
     ∃ r, (activePhases cfg rm s mem).1.setEvents =
       s.setEvents ++ [.statusUpdate final.name r final.revision final.conds final.controllerOf final.remotePhases] := by
-  intro final
+  intro w' final
   have hav : condTrue final.conds "Available" = failing.isNone := by
     simp only [final]
     rw [Pko.Lemmas.ObjectSet.finishMem_condTrue_other _ _ _ (by decide)]
